@@ -152,6 +152,16 @@ def replay_query(prop, path, wd):
     return 0
 
 
+BIG = dict(NV=6, InitBV=6, NL=9, Kinds={"D", "U"}, AllowNone=False, OnlyOps={"new"})
+
+
+def big_filter(minlinks, one_in):
+    """probe only dense graphs, and a hash-chosen fraction of them"""
+    def f(ks):
+        return json.loads(ks)["nl"] >= minlinks and P.h(ks) % one_in == 0
+    return f
+
+
 def nontrivial_probe_class(c):
     return "kinds=-" not in c and "plain" not in c
 
@@ -230,8 +240,13 @@ def _trav(prop, tier, seed, wd, replay, rule):
     if tier == "quick":
         lemma_run(run, prop, "lemma-3x2", qcfg("l", NV=3, InitBV=3)[1], wd)
         spec = {"kind": prop, "density": 1, "seed": seed}
-        cfgs = [qcfg("graphs-2x2-DUT", Kinds={"D", "U", "T"}, OnlyOps={"new", "setv"}),
-                qcfg("graphs-3x2-DU", NV=3, InitBV=3, Kinds={"D", "U"}, OnlyOps={"new"})]
+        cfgs = [qcfg("graphs-2x2-DUT", Kinds={"D", "U", "T"}, OnlyOps={"new", "setv"})]
+        extra = [(qcfg("graphs-3x2-DU", NV=3, InitBV=3, Kinds={"D", "U"}, OnlyOps={"new"}),
+                  {"kind": prop, "density": 1, "seed": seed, "unks": [2]}, None, None),
+                 (qcfg("graphs-3x3-D", NV=3, InitBV=3, NL=3, Kinds={"D"}, OnlyOps={"new"}, AllowNone=False),
+                  {"kind": prop, "density": 1, "seed": seed, "unks": [2]}, None, None),
+                 (qcfg("graphs-sim-6x9", **BIG), {"kind": prop, "density": 1, "seed": seed, "big": True, "unks": [2]},
+                  ("num=20", 10), big_filter(6, 12))]
     else:
         lemma_run(run, prop, "lemma-3x2", qcfg("l", NV=3, InitBV=3)[1], wd)
         lemma_run(run, prop, "lemma-3x3", qcfg("l", NV=3, InitBV=3, NL=3, Kinds={"D", "U", "T"}, OnlyOps={"new"})[1], wd, timeout=7000)
@@ -239,16 +254,21 @@ def _trav(prop, tier, seed, wd, replay, rule):
         cfgs = [qcfg("graphs-2x2-DUT", Kinds={"D", "U", "T"}, OnlyOps={"new", "setv"}),
                 qcfg("graphs-3x2-DUT", NV=3, InitBV=3, Kinds={"D", "U", "T"}, OnlyOps={"new", "setv"}),
                 qcfg("graphs-3x3-DU", NV=3, InitBV=3, NL=3, Kinds={"D", "U"}, OnlyOps={"new"}),
-                qcfg("graphs-4x3-D", NV=4, InitBV=4, NL=3, Kinds={"D"}, OnlyOps={"new"})]
+                qcfg("graphs-4x3-D", NV=4, InitBV=4, NL=3, Kinds={"D"}, OnlyOps={"new"}, AllowNone=False)]
+        extra = [(qcfg("graphs-sim-6x9", **BIG), {"kind": prop, "density": 2, "seed": seed, "big": True},
+                  ("num=120", 10), big_filter(5, 10)),
+                 (qcfg("graphs-sim-5x6-mixed", NV=5, InitBV=5, NL=6, Kinds={"D", "U", "T", "D2"}, OnlyOps={"new", "setv"}),
+                  {"kind": prop, "density": 1, "seed": seed, "big": True}, ("num=60", 10), big_filter(3, 6))]
     for name, consts in cfgs:
         run_config(run, prop, name, consts, wd, spec)
+    for (name, consts), sp, sim, pf in extra:
+        if sim:
+            run_config(run, prop, name, consts, wd, sp, simulate=sim[0], depth=sim[1], seed=seed + 1, probe_filter=pf)
+        else:
+            run_config(run, prop, name, consts, wd, sp, probe_filter=pf)
     if tier == "thorough":
         name, consts = cfgs[0]
         run_config(run, prop, name + "+cache", consts, wd, spec, caching=True)
-        sim = qcfg("graphs-sim-5x6", NV=5, InitBV=5, NL=6, Kinds={"D", "U", "T", "D2"}, OnlyOps={"new", "setv"})
-        run_config(run, prop, sim[0], sim[1], wd, {"kind": prop, "density": 1, "seed": seed},
-                   simulate="num=60", depth=10, seed=seed + 1,
-                   probe_filter=lambda ks: P.h(ks) % 4 == 0)
     run.exhaustive = True
     run.assumptions = ASSUME
     mandatory = [lambda c: "selfloop" in c, lambda c: "parallel" in c, lambda c: "mixed" in c,
@@ -306,6 +326,16 @@ def c08(tier, seed, wd, replay):
         if name.endswith("chain"):
             pf = lambda ks: P.h(ks) % 6 == 0
         run_config(run, "C08", f"{name}:{vcls}", consts, wd, spec, vertex_cls=vcls, probe_filter=pf)
+    # dense random graphs from the specification's own random walk, duplicate-target attribute vectors
+    bigspec = {"kind": "C08", "seed": seed, "vectors": 5 if tier == "quick" else 10, "big": True}
+    name, consts = qcfg("graphs-sim-6x9", **BIG)
+    run_config(run, "C08", name + ":FalsyVertex", consts, wd, bigspec, vertex_cls="FalsyVertex",
+               simulate="num=20" if tier == "quick" else "num=150", depth=10, seed=seed + 2,
+               probe_filter=big_filter(6, 10 if tier == "quick" else 6))
+    if tier == "thorough":
+        name, consts = qcfg("graphs-4x4-D", NV=4, InitBV=4, NL=4, Kinds={"D"}, OnlyOps={"new"}, AllowNone=False)
+        run_config(run, "C08", name + ":Vertex", consts, wd, {"kind": "C08", "seed": seed, "vectors": 6, "big": True},
+                   probe_filter=lambda ks: json.loads(ks)["nl"] == 4 and P.h(ks) % 3 == 0)
     run.exhaustive = True
     run.assumptions = ASSUME + ["Python values are abstracted into equality classes by the executor (1 == 1.0 == True; equal strings built at run time)"]
     mandatory = [lambda c: "matches2" in c, lambda c: "startmatch" in c, lambda c: "uni=part" in c,
